@@ -62,6 +62,11 @@ func TestC02_ManyMessages(t *testing.T) {
 		if shape == 7 && k >= 2 { // (sk, r-sk) pair
 			xs[1] = new(big.Int).Sub(blsR, xs[0])
 		}
+		totalCancel := shape == 7 && k >= 2 && g.Chance("totalCancel", 1, 2) // exactly pk and -pk on one message: Σ sk_i·H_i is the identity
+		if totalCancel {
+			n, k, m = 2, 2, 1
+			xs = xs[:2]
+		}
 		// message pool
 		msgs := make([]c02Msg, m)
 		for i := range msgs {
@@ -148,6 +153,15 @@ func TestC02_ManyMessages(t *testing.T) {
 			g.Fatalf("aggregate of the %d individual signatures is %x, oracle Σ sk_i·H_i is %x", n, []byte(agg), expected)
 		}
 		cands := sigCandidates(g, sum, "c")
+		if sum.Inf {
+			// the aggregate is the identity: its only accepted encoding is C0 00…00; an infinity encoding with a stray byte
+			// at any of the 47 positions is another string and must be rejected
+			for pos := 1; pos <= 47; pos++ {
+				b := bls381.G1Compress(bls381.G1Infinity())
+				b[pos] = []byte{0x01, 0x80, 0xff}[g.Pick("dirtyByte", 3)]
+				cands = append(cands, cand{b, fmt.Sprintf("infinityDirtyAt%d", pos), false})
+			}
+		}
 		injectIdentity := g.Chance("identityKeyAt", 1, 10)
 		idPos := 0
 		if injectIdentity {
